@@ -25,6 +25,31 @@ type tableModel struct {
 	EIT               *astits.EITData
 	TOT               *astits.TOTData
 	Ident             int
+	Raw               []byte // K == "opaque": a section of a table the library recognises but does not decode (BAT, DIT, RST, SIT, ST, TDT)
+}
+
+var opaqueTIDs = []int{0x4a, 0x7e, 0x71, 0x7f, 0x72, 0x70}
+
+func isOpaqueTID(t int) bool {
+	for _, o := range opaqueTIDs {
+		if o == t {
+			return true
+		}
+	}
+	return false
+}
+
+func randOpaque(r *rng) *tableModel {
+	return &tableModel{K: "opaque", TID: opaqueTIDs[r.intn(len(opaqueTIDs))], SSI: r.boolean(), Priv: r.boolean(), Raw: r.bytes(r.pick(0, 1, 5, 8, 30, 120))}
+}
+
+func unitKind(ms []*tableModel) string {
+	for _, m := range ms {
+		if m.K != "opaque" {
+			return m.K
+		}
+	}
+	return "sdt"
 }
 
 func descLoopBytes(ds []*astits.Descriptor) []byte {
@@ -44,6 +69,9 @@ func dvbTimeBytes(t time.Time) []byte {
 
 // twinSection encodes a table model (ISO 13818-1 2.4.4 / EN 300 468 5.2); TLC re-derives every vector (PSI.tla)
 func twinSection(m *tableModel) []byte {
+	if m.K == "opaque" {
+		return append([]byte{byte(m.TID), b2i(m.SSI)<<7 | b2i(m.Priv)<<6 | 0x30 | byte(len(m.Raw)>>8&0xf), byte(len(m.Raw))}, m.Raw...)
+	}
 	var body []byte
 	put16 := func(v int) { body = append(body, byte(v>>8), byte(v)) }
 	loop := func(prefix byte, ds []*astits.Descriptor) {
@@ -154,6 +182,9 @@ func fullDescs(v M, m *tableModel) {
 }
 
 func projTableModel(m *tableModel) M {
+	if m.K == "opaque" {
+		return M{"k": m.K, "tid": m.TID, "ssi": m.SSI, "priv": m.Priv, "raw": ints(m.Raw)}
+	}
 	v := M{"k": m.K, "tid": m.TID, "ssi": m.SSI, "priv": m.Priv, "ext": m.Ext, "ver": m.Ver, "cni": m.CNI, "sn": m.SN, "lsn": m.LSN}
 	projBody(v, m.K, m.PAT, m.PMT, m.SDT, m.NIT, m.EIT, m.TOT)
 	return v
@@ -268,6 +299,24 @@ func smallDescs(r *rng, max int, budget int) []*astits.Descriptor {
 	return ds
 }
 
+// bigDescs: descriptors adding up to at least target bytes (a loop length that needs the upper bits of its 12-bit field)
+func bigDescs(r *rng, target int) []*astits.Descriptor {
+	var ds []*astits.Descriptor
+	for int(astits.VerifCalcDescriptorsLength(ds)) < target {
+		d := randDescriptor(r, descKinds[r.intn(len(descKinds))], r.pick(60, 120, 250))
+		setLength(d, "correct", r)
+		ds = append(ds, d)
+	}
+	return ds
+}
+
+// bigLoopEIT: an EIT section (up to 4093 bytes) with one event whose descriptor loop is 1024..3000 bytes, between small events
+func bigLoopEIT(r *rng) *tableModel {
+	m := randTable(r, "eit", 2, 8)
+	m.EIT.Events[r.intn(2)].Descriptors = bigDescs(r, r.pick(1024, 1025, 1100, 2047, 2048, 2100, 3000))
+	return m
+}
+
 func randDate(r *rng) time.Time {
 	return time.Date(1900, 3, 1, r.intn(24), r.intn(60), r.intn(60), 0, time.UTC).AddDate(0, 0, r.intn(50457))
 }
@@ -380,6 +429,19 @@ func packetise(pid int, unit []byte, cc0 int) []byte {
 	return out
 }
 
+// patUnitFor: a PID-0 unit announcing pmtPID: alone, or in the 2nd / 3rd PAT section of the unit (by variant)
+func patUnitFor(pmtPID int, variant int) []byte {
+	unit := []byte{0}
+	for i := 0; i < variant%3; i++ {
+		m := &tableModel{K: "pat", TID: 0, SSI: true, CNI: true, Ext: 1, SN: i, LSN: variant % 3,
+			PAT: &astits.PATData{Programs: []*astits.PATProgram{{ProgramNumber: uint16(100 + i), ProgramMapID: uint16(0x1f00 + i)}}}}
+		unit = append(unit, twinSection(m)...)
+	}
+	m := &tableModel{K: "pat", TID: 0, SSI: true, CNI: true, Ext: 1, SN: variant % 3, LSN: variant % 3,
+		PAT: &astits.PATData{Programs: []*astits.PATProgram{{ProgramNumber: 1, ProgramMapID: uint16(pmtPID)}}}}
+	return append(unit, twinSection(m)...)
+}
+
 func patFor(pmtPID int) []byte {
 	m := &tableModel{K: "pat", TID: 0, SSI: true, CNI: true, Ext: 1, PAT: &astits.PATData{Programs: []*astits.PATProgram{{ProgramNumber: 1, ProgramMapID: uint16(pmtPID)}}}}
 	return append([]byte{0}, twinSection(m)...)
@@ -430,15 +492,29 @@ func runPSI(line []byte, rec *recorder) {
 		}
 		vals := []M{}
 		encs := []M{}
+		encall := []M{}
+		nopq := 0
 		for _, m := range ms {
+			if len(unit)%184 == 0 {
+				// this section would start with a packet: that packet has to set payload_unit_start_indicator (ISO 13818-1 2.4.3.3), so
+				// the sections are not one unit for a demultiplexer; not a vector
+				return
+			}
 			unit = append(unit, twinSection(m)...)
+			if m.K == "opaque" { // not delivered, but the sections around it are
+				encall = append(encall, projTableModel(m))
+				nopq++
+				continue
+			}
 			vals = append(vals, projTableModel(m))
 			encs = append(encs, encTableModel(m))
+			encall = append(encall, encTableModel(m))
 		}
 		for i := 0; i < trail; i++ {
 			unit = append(unit, 0xff)
 		}
-		e := M{"ev": "tvec", "class": class, "ptr": ptr, "secs": vals, "enc": encs, "trail": trail, "b": ints(unit), "got": []M{}, "gerr": "none", "gptr": -1, "data": []M{}, "derrs": 0}
+		e := M{"ev": "tvec", "class": class, "ptr": ptr, "secs": vals, "enc": encs, "trail": trail, "b": ints(unit), "got": []M{}, "gerr": "none", "gptr": -1, "data": []M{}, "derrs": 0,
+			"encall": encall, "nopq": nopq, "gopq": 0}
 		var d *astits.PSIData
 		var err error
 		if pn := safeCall(func() { d, err = astits.VerifParsePSIData(unit) }); pn != nil {
@@ -448,22 +524,28 @@ func runPSI(line []byte, rec *recorder) {
 		scramble(unit)
 		if err == nil {
 			got := []M{}
+			gopq := 0
 			for _, s := range d.Sections {
 				if s.Header != nil && int(s.Header.TableID) == 0xff {
 					continue // the stuffing marker
 				}
+				if s.Header != nil && isOpaqueTID(int(s.Header.TableID)) && s.Syntax != nil && s.Syntax.Data != nil && s.Syntax.Data.PAT == nil && s.Syntax.Data.PMT == nil &&
+					s.Syntax.Data.SDT == nil && s.Syntax.Data.NIT == nil && s.Syntax.Data.EIT == nil && s.Syntax.Data.TOT == nil || s.Header != nil && isOpaqueTID(int(s.Header.TableID)) && (s.Syntax == nil || s.Syntax.Data == nil) {
+					gopq++
+					continue // a section of an undecoded table: counted, nothing to compare
+				}
 				got = append(got, projParsedSection(s))
 			}
-			e["got"], e["gptr"] = got, d.PointerField
+			e["got"], e["gptr"], e["gopq"] = got, d.PointerField, gopq
 		}
 		scramble(unit)
 		// and through the public API: DemuxerData field for field (one section kinds only when they share a PID)
-		tabs, errs, pan := demuxOutcome(ms[0].K, unit)
+		tabs, errs, pan := demuxOutcome(unitKind(ms), unit)
 		_ = tabs
 		e["derrs"], e["dpanic"] = errs, pan
 		dd := []M{}
 		if !pan {
-			dmxUnitData(ms[0].K, unit, &dd)
+			dmxUnitData(unitKind(ms), unit, &dd)
 		}
 		e["data"] = dd
 		rec.ev(e)
@@ -483,6 +565,18 @@ func runPSI(line []byte, rec *recorder) {
 				ms = append(ms, randTable(r, k, r.intn(3), r.pick(0, 10)))
 			}
 			tvec(k+"-multi", r.pick(0, 3), ms, r.pick(0, 5))
+			// sections of tables the library does not decode (BAT, DIT, RST, SIT, ST, TDT) between, before and after them
+			var mo []*tableModel
+			for _, m := range ms {
+				for r.intn(2) == 0 {
+					mo = append(mo, randOpaque(r))
+				}
+				mo = append(mo, m)
+			}
+			if r.intn(2) == 0 {
+				mo = append(mo, randOpaque(r))
+			}
+			tvec(k+"-multi-with-undecoded", r.pick(0, 3), mo, r.pick(0, 5))
 		}
 	case "large": // up to the 1021 / 4093-byte section limits
 		for i := 0; i < sc.N; i++ {
@@ -506,6 +600,11 @@ func runPSI(line []byte, rec *recorder) {
 				continue
 			}
 			tvec(k+"-large", 0, []*tableModel{m}, 0)
+			if k == "eit" {
+				if m := bigLoopEIT(r); len(twinSection(m)) <= 4096 {
+					tvec("eit-large-loop", 0, []*tableModel{m}, r.pick(0, 3))
+				}
+			}
 		}
 	case "writer": // writePSIData for PAT / PMT with arbitrary header fields
 		for i := 0; i < sc.N; i++ {
@@ -584,6 +683,10 @@ func runPSI(line []byte, rec *recorder) {
 			for j, n := 0, r.pick(1, 1, 2); j < n; j++ {
 				ms = append(ms, randTable(r, k, r.intn(3), r.pick(0, 8)))
 			}
+			big := k == "eit" && i == sc.N-1 // the last EIT unit of a scenario spans several packets: a descriptor loop of 1 KB and more
+			if big {
+				ms = []*tableModel{bigLoopEIT(r)}
+			}
 			ptr, trail := r.pick(0, 0, 2), r.pick(0, 1, 3)
 			unit := []byte{byte(ptr)}
 			for j := 0; j < ptr; j++ {
@@ -595,15 +698,28 @@ func runPSI(line []byte, rec *recorder) {
 			for j := 0; j < trail; j++ {
 				unit = append(unit, 0xff)
 			}
-			if len(unit) > 180 {
+			if len(unit) > 180 && !big {
 				continue // one packet per unit keeps the fault's position meaningful
+			}
+			if len(unit) > 4096 {
+				continue
 			}
 			origTabs, oerrs, opan := demuxOutcome(k, unit)
 			orig := []string{}
 			for _, t := range origTabs {
 				orig = append(orig, t["cdg"].(string))
 			}
-			rec.ev(M{"ev": "corig", "class": "clean", "k": k, "b": ints(unit), "orig": orig, "errs": oerrs, "panic": opan, "nsec": len(ms)})
+			// what the clean unit decodes to, against the values it was encoded from (the reference point of "altered")
+			want, data := []M{}, []M{}
+			for _, m := range ms {
+				v := M{"k": m.K, "ext": m.Ext}
+				projBody(v, m.K, m.PAT, m.PMT, m.SDT, m.NIT, m.EIT, m.TOT)
+				want = append(want, v)
+			}
+			if !opan {
+				dmxUnitData(k, unit, &data)
+			}
+			rec.ev(M{"ev": "corig", "class": "clean", "k": k, "b": ints(unit), "orig": orig, "errs": oerrs, "panic": opan, "nsec": len(ms), "want": want, "data": data})
 			emit := func(class string, pos int, c []byte) {
 				tabs, errs, pan := demuxOutcome(k, c)
 				got := []string{}
@@ -613,6 +729,9 @@ func runPSI(line []byte, rec *recorder) {
 				rec.ev(M{"ev": "cvec", "class": class, "k": k, "pos": pos, "b": ints(c), "tabs": got, "errs": errs, "panic": pan})
 			}
 			for bit := 0; bit < len(unit)*8; bit++ {
+				if big && r.intn(len(unit)/40) != 0 {
+					continue // a sample of about 320 positions of a large unit
+				}
 				c := append([]byte(nil), unit...)
 				c[bit/8] ^= 0x80 >> uint(bit%8)
 				emit("bit-flip", bit, c)
@@ -651,7 +770,7 @@ func dmxUnitData(k string, unit []byte, out *[]M) {
 	var stream []byte
 	pid := pidForKind(k)
 	if k == "pmt" {
-		stream = append(stream, packetise(0, patFor(pid), 0)...)
+		stream = append(stream, packetise(0, patUnitFor(pid, len(unit)), 0)...)
 	}
 	stream = append(stream, packetise(pid, unit, 3)...)
 	dmx := astits.NewDemuxer(context.Background(), bytes.NewReader(stream), astits.DemuxerOptPacketSize(188))
